@@ -15,10 +15,28 @@ package dhcpd
 
 // Removals: the lease database is deleted only by the explicit reset request; the migration removes the file of the old
 // format after the new one has been written.  No rename in the package.
-//@ func (s *server) handleReset(w http.ResponseWriter, r *http.Request)
-//@   property C14
+// (C10: a reset empties the table and keeps the place of the lease database - what is stored afterwards goes where a
+// restart will look for it.  The server constructors and the configuration callback do not touch the package
+// configuration: assumed frames.)
+//@ func v4Create(conf *V4ServerConf) (srv *v4Server, err error)
+//@   callsites-only
+//@   modifies nothing
+//@ func v6Create(conf V6ServerConf) (srv DHCPServer, err error)
+//@   callsites-only
+//@   modifies nothing
+//@ func (fieldcall) ServerConfig_ConfigModified()
+//@   modifies nothing
+//@ func (s *server) Stop() (err error)
 //@   callsites-only
 //@   requires nolocks()
+//@   trusted-ensures keeps-the-configuration: s.conf == old(s.conf) && s.conf.dbFilePath == old(s.conf.dbFilePath) && s.conf.DataDir == old(s.conf.DataDir)
+//@   modifies *
+//@ func (s *server) handleReset(w http.ResponseWriter, r *http.Request)
+//@   property C14, C10
+//@   callsites-only
+//@   requires nolocks()
+//@   requires s.conf != nil
+//@   ensures must-keep-the-database-path: s.conf != nil && s.conf.dbFilePath == old(s.conf.dbFilePath)
 //@   modifies *
 //@   callsite os.Remove(name) requires reset-removes-the-database: name == s.conf.dbFilePath
 //@ func migrateDB(conf *ServerConfig) (err error)
